@@ -67,7 +67,8 @@ func VerifC06Tick() {
 		if done {
 			cur = e
 			vAssert(readInt("netmap", "epoch") == e, "C06/epoch-is-the-argument")
-			vAssert(readInt("netmap", "lastEpochBlock") == h, "C06/tick-height-recorded")
+			// ledger.CurrentIndex() is the latest stored block: one below the block that carries the tick
+			vAssert(readInt("netmap", "lastEpochBlock") == h-1, "C06/tick-height-recorded")
 			_, r := vRead("netmap", "netmap")
 			nm := r.([]Node)
 			// legacy map = the non-offline candidates n1 (Online) and n2 (Maintenance)
